@@ -252,5 +252,5 @@ def run(ctx):
     from . import c12
     c12.rule_traj(ctx, ctx.py, "C17.TRAJ")
     from .. import lints
-    lints.run(ctx, "C17", ctx.py, ["rdoutput"], truth_floor=8)
+    lints.run(ctx, "C17", ctx.py, ["rdoutput", "rdgridspace", "rdgraphspace", "rdsystem"], truth_floor=8)
     ctx.assume("returned values are not decided; the data layout written by the engine is C09.LAYOUT-OUT")
